@@ -45,3 +45,73 @@ let run_faults (parts : string list) : string =
       (if o.o_ctx then "dl" else "early") spec
 
 let () = register "faults" run_faults
+
+(* ---------- kind: outage (C14, round 2) ----------
+   case:   tr=<udp|tcp|tcpp|tls|tlsp|doh|doq|sudp|stcpp|stcp|sdoq> warm=<k> down=<refuse|hsfail|rwfail|rwboth>
+           conc=<n> reps=<r> dl=<ms> after=<m> adl=<ms>
+   result: burst=<ERR|REPLY|MIXED|HANG> after=<R|E|H ...> nd=<n|-> || spec=<ok|FAIL:..>
+   Pooled transports: every exchange is a run of the exchange LTS ([run_case]) from what its predecessors left in the
+   pool; QUIC: the whole sequence is one execution of the shared-dial LTS ([sdq_big]); all inside the extracted
+   [og_session].  [og_spec] is the property's expectation (C14_outage_sessions_recover). *)
+let og_tr = function
+  | "udp" | "sudp" -> (TPipe, true, false)
+  | "tcpp" | "stcpp" -> (TPipe, false, false)
+  | "tlsp" -> (TPipe, false, true)
+  | "tcp" | "stcp" -> (TReuse, false, false)
+  | "tls" -> (TReuse, false, true)
+  | "doh" -> (TDoH, false, true)
+  | "doq" | "sdoq" -> (TQuic, false, true)
+  | s -> failwith ("outage: unknown transport " ^ s)
+
+let run_outage (parts : string list) : string =
+  let f = fields parts in
+  let tr = fld f "tr" in
+  let (tk, udp, hs) = og_tr tr in
+  let down = (match fld f "down" with
+    | "refuse" -> OgRefuse | "hsfail" -> OgHsFail | "rwfail" | "rwboth" -> OgRwFail
+    | s -> failwith ("outage: unknown outage mode " ^ s)) in
+  (* a real quic:// upstream dials from an unconnected socket: a closed port is silence, the dial stays in flight *)
+  let hang = (tr = "doq" && down = OgRefuse) in
+  let conc = ifld f "conc" * (match fld_opt f "reps" with Some r -> int_of_string r | None -> 1) in
+  let after = ifld f "after" in
+  match og_session tk udp hs hang (nat_of_int (ifld f "warm")) down (nat_of_int conc) (nat_of_int after) with
+  | None -> "MODEL-STUCK"
+  | Some e ->
+    let cls l =
+      if l = [] then "-"
+      else if List.for_all (fun x -> x = Some false) l then "ERR"
+      else if List.for_all (fun x -> x = Some true) l then "REPLY"
+      else if List.exists (fun x -> x = None) l then "HANG" else "MIXED" in
+    let each l = if l = [] then "-" else String.concat "" (List.map (function Some true -> "R" | Some false -> "E" | None -> "H") l) in
+    let known = og_nd_known tk hang in
+    Printf.sprintf "burst=%s late=0 after=%s nd=%s || spec=%s" (cls e.oe_burst) (each e.oe_after)
+      (if known && after > 0 then string_of_int (int_of_nat e.oe_newdials) else "-")
+      (if og_spec known (nat_of_int after) e then "ok" else "FAIL:c14-outage-not-recovered")
+
+let () = register "outage" run_outage
+
+(* ---------- kind: connlock (C14, round 2) ----------
+   case:   eol=<0|1> g=<op,op,..>;<op,..>;...      op = close | status | getq | reserve | add | del
+   result: done=<k>/<n> closed=<0|1> ctx=<0|1> final=<ok|BLOCKED> || spec=<ok|FAIL:..>
+   The goroutines run their operations on ONE real pipelineConn; the model is the extracted [cl_case] (Net/ConnLock.v)
+   with the read loop as an extra goroutine that closes too once somebody closed the socket. *)
+let cl_op_of = function
+  | "close" -> ClClose | "status" -> ClStatus | "getq" -> ClGetQ | "reserve" -> ClReserve | "add" -> ClAdd | "del" -> ClDel
+  | s -> failwith ("connlock: unknown op " ^ s)
+
+let run_connlock (parts : string list) : string =
+  let f = fields parts in
+  let eol = (fld f "eol" = "1") in
+  let progs = List.map (fun g -> if g = "" || g = "-" then [] else List.map cl_op_of (String.split_on_char ',' g))
+      (String.split_on_char ';' (fld f "g")) in
+  let reader = cl_closes eol progs in
+  let o = cl_case true eol progs reader in
+  let n = List.length progs in
+  let total = int_of_nat o.co_total and dn = int_of_nat o.co_done in
+  (* the read loop is not one of the case's goroutines *)
+  let extra = if reader then 1 else 0 in
+  let spec = if dn = total && o.co_free then "ok" else "FAIL:c14-conn-lock-stuck" in
+  Printf.sprintf "done=%d/%d closed=%d ctx=%d final=%s || spec=%s" (dn - extra) n (b2i o.co_closed) (b2i o.co_cancel)
+    (if o.co_free && dn = total then "ok" else "BLOCKED") spec
+
+let () = register "connlock" run_connlock
